@@ -160,3 +160,17 @@ pub fn escaped_rust_name(name: String) -> String {
         _ => name,
     }
 }
+
+/// Add-only wrappers exposing the private naming helpers to the verification harness.
+#[cfg(feature = "verif")]
+pub mod verif_hooks {
+    pub fn to_lower_snake_case(value: &str) -> String {
+        super::to_lower_snake_case(value)
+    }
+    pub fn upper_case_variant_name(value: &str) -> String {
+        super::upper_case_variant_name(value)
+    }
+    pub fn escaped_rust_name(name: String) -> String {
+        super::escaped_rust_name(name)
+    }
+}
